@@ -1,6 +1,7 @@
 import Mathlib.Algebra.BigOperators.Finprod
 import Mathlib.Algebra.FiniteSupport.Basic
 import EpgVerif.Props.C08
+import EpgVerif.Props.C04
 /-
   C14 — lossless operators are isometries, dissipative ones are contractions (1-D state model).
   The squared norm is taken in its symmetric form
@@ -297,5 +298,56 @@ theorem normSq_eq_code_norm (s : SM ℂ) (h : C08.WF s) :
   have : ∑ᶠ k : ℤ, normSq (s.get k).fm = ∑ᶠ k : ℤ, (normSq (s.get k).fm / 2 + normSq (s.get k).fm / 2) := by
     congr 1; funext k; ring
   rw [this, finsum_add_distrib fB fB]
+
+/-! ### shifts along any number of axes -/
+section nd
+open EpgVerif.Props.C04
+variable {κ : Type} [DecidableEq κ] [AddCommGroup κ]
+
+/-- total squared length of a coordinate table (finite: only stored coordinates contribute) -/
+noncomputable def energy (f : κ → PS ℂ) : ℝ := ∑ᶠ k, q (f k)
+
+/-- **n-D shifts are isometries**: moving F+ by `+g`, F- by `−g` and leaving Z in place permutes the terms of the
+    sum of squares (any number of axes, time axis included) -/
+theorem energy_shiftF (g : κ) (f : κ → PS ℂ) (hf : (Function.support f).Finite) :
+    energy (shiftF g f) = energy f := by
+  unfold energy
+  have hsup : ∀ (c : PS ℂ → ℝ), c 0 = 0 → Function.HasFiniteSupport (fun k => c (f k)) := by
+    intro c hc
+    show (Function.support _).Finite
+    apply hf.subset
+    intro k hk
+    by_contra h0
+    apply hk
+    have : f k = 0 := by simpa using h0
+    simp [this, hc]
+  have h1 := hsup (fun p => normSq p.fp / 2) (by simp)
+  have h2 := hsup (fun p => normSq p.fm / 2) (by simp)
+  have h3 := hsup (fun p => normSq p.z) (by simp)
+  have e : ∀ h : κ → PS ℂ, (fun k => q (h k)) = fun k => (normSq (h k).fp / 2 + normSq (h k).fm / 2) + normSq (h k).z := by
+    intro h; funext k; simp [q]; ring
+  rw [e f, e (shiftF g f)]
+  have s1 : Function.HasFiniteSupport (fun k => normSq (shiftF g f k).fp / 2) := by
+    have : (fun k => normSq (shiftF g f k).fp / 2) = (fun k => normSq (f k).fp / 2) ∘ (Equiv.subRight g) := by
+      funext k; simp [shiftF]
+    rw [this]; exact Set.Finite.preimage (Equiv.injective _).injOn h1
+  have s2 : Function.HasFiniteSupport (fun k => normSq (shiftF g f k).fm / 2) := by
+    have : (fun k => normSq (shiftF g f k).fm / 2) = (fun k => normSq (f k).fm / 2) ∘ (Equiv.addRight g) := by
+      funext k; simp [shiftF]
+    rw [this]; exact Set.Finite.preimage (Equiv.injective _).injOn h2
+  have s3 : Function.HasFiniteSupport (fun k => normSq (shiftF g f k).z) := by simpa [shiftF] using h3
+  have s12 : Function.HasFiniteSupport (fun k => normSq (shiftF g f k).fp / 2 + normSq (shiftF g f k).fm / 2) := s1.add s2
+  have h12 : Function.HasFiniteSupport (fun k => normSq (f k).fp / 2 + normSq (f k).fm / 2) := h1.add h2
+  rw [finsum_add_distrib s12 s3, finsum_add_distrib s1 s2, finsum_add_distrib h12 h3, finsum_add_distrib h1 h2]
+  congr 1
+  · congr 1
+    · have : (fun k => normSq (shiftF g f k).fp / 2) = fun k => normSq (f (Equiv.subRight g k)).fp / 2 := by
+        funext k; simp [shiftF]
+      rw [this, finsum_comp_equiv (Equiv.subRight g) (f := fun k => normSq (f k).fp / 2)]
+    · have : (fun k => normSq (shiftF g f k).fm / 2) = fun k => normSq (f (Equiv.addRight g k)).fm / 2 := by
+        funext k; simp [shiftF]
+      rw [this, finsum_comp_equiv (Equiv.addRight g) (f := fun k => normSq (f k).fm / 2)]
+
+end nd
 
 end EpgVerif.Props.C14
